@@ -40,11 +40,14 @@ def _parse_command_line(cli_args = None):
 
 def _create_override_tuple(key, has_value = True):
   # TODO: Error handling for malformed options
-  section,key = key.split(":", 1)
+  # Section names may themselves contain colons ([Table-Form:NAME]); option keys cannot.
+  # The key is therefore the text after the last colon of SECTION_NAME:KEY.
   if has_value:
-    key, value = key.split("=", 1)
+    split_idx = key.index("=", key.index(":"))
+    key, value = key[:split_idx], key[split_idx+1:]
   else:
     value = None
+  section,key = key.rsplit(":", 1)
   retval = ConfigParserOverrideTuple(section = section, key = key, value = value)
   return retval
 
